@@ -13,6 +13,7 @@ import (
 	"runtime/debug"
 	"sort"
 	"strings"
+	"sync/atomic"
 	"unicode/utf8"
 )
 
@@ -20,8 +21,8 @@ import (
 // process, possibly split into shards by case index.
 type Unit struct {
 	Name     string
-	QShards  int // shards in quick tier (0 = 1)
-	TShards  int // shards in thorough tier (0 = 1)
+	QShards  int  // shards in quick tier (0 = 1)
+	TShards  int  // shards in thorough tier (0 = 1)
 	Race     bool // needs the -race build
 	Run      func(c *Ctx)
 	Thorough bool // runs in the thorough tier only
@@ -102,6 +103,7 @@ type Ctx struct {
 	Trace    *os.File
 	Rep      *Report
 	digests  map[uint64]struct{}
+	curCase  atomic.Int64 // index of the case being run (for the watchdog)
 }
 
 func (c *Ctx) tier() string {
@@ -166,6 +168,7 @@ func (c *Ctx) Case(idx int64, fn func(k *K)) {
 		c.Trace.WriteAt(s, 0)
 	}
 	k := &K{c: c, Idx: idx}
+	c.curCase.Store(idx)
 	c.Rep.Evaluations++
 	func() {
 		defer func() {
